@@ -253,3 +253,20 @@ PROPS["C18"]["suites_dev"] = ["deep"]
 PROPS["C19"]["suites_dev"] = ["deep"]
 PROPS["C12"]["suites_dev"] = ["ops:deep"]
 PROPS["C16"]["suites_dev"] = ["ops:deep"]
+
+# additions to the input rules after the adversarial mutation rounds (see DESIGN.md section 0)
+_EXTRA_RULE = {
+    "C04": "; plus limits 2^31..usize::MAX that are never reached (must equal limit 0) and a run of 2^17 contractions counted in one unlimited call and in 50 000-step slices",
+    "C06": "; plus agreement of the normalising orders on terms whose free indices are shifted by 2^32-1, 2^32, 2^32+1, 2^48+12345",
+    "C09": "; plus a dictionary of keyword-like words (lambda, fn, undefined, ..) and redundant parentheses / right-nested groups 1000..3000 deep (20000 reported)",
+    "C10": "; plus runs of 255..1030 binders, Church numeral 1030, free variables named lambda/fn/let/in/undefined and indices 2^61..usize::MAX-8 (13- and 14-letter names)",
+    "C11": "; plus runs of 255..1030 binders, Church numeral 1030 and a 1200-level F(λE(λF(..))) nesting",
+    "C12": "; binary numerals 2^31..usize::MAX through the N-indexed encoder; all 15 container impls; numeral constructors on 200 000 with a 512 KiB stack (also in the dev profile)",
+    "C13": "; plus single UNLIMITED calls on computations of 15 000-17 000 contractions (fac 7, pow 2 13, rem 24 1)",
+    "C16": "; Vec conversions of UD / open elements; app! with operands from an iterator; list conversions of 200 000 elements on a 512 KiB stack (also in the dev profile)",
+    "C17": "; every law also with UD payloads and with payload indices moved by 2^32-1, 2^32, 2^32+1, 2^63+3; the From impls for pair/option/result/Vec on closed payloads",
+    "C18": "; predicates invariant under moving free indices by 2^32-1..2^48; digit-correlated pairs (t, parse(Debug t)) for is_isomorphic_to; is_supercombinator on 400 000 binders with a 512 KiB stack (also in the dev profile)",
+    "C19": "; app! with operands drawn from an iterator (evaluation order); consuming lhs on a spine of 400 000 applications with a 512 KiB stack (also in the dev profile)",
+}
+for _k, _v in _EXTRA_RULE.items():
+    PROPS[_k]["rule"] = PROPS[_k]["rule"] + _v
